@@ -1,6 +1,6 @@
 SPECIFICATION Spec
 CONSTANTS
-  Pairs <- MCPairs
+  Pairs <- MCPairsL
   AB_H = 4
   AB_N = 3
   U_H = 3
